@@ -21,8 +21,15 @@ theorem C17_gen_space_runes : Generated.C17.spaceEncs = some spaceEncs := by dec
 /-- the exported style constants have the model's bit values -/
 theorem C17_gen_style_consts : Generated.C17.styleConsts = some styleConsts := by decide
 
-/-- the code fence literal -/
-theorem C17_gen_fence : Generated.C17.fence = some fence := by decide
+/-- the lines of one repeated byte that open a pre block according to the model's `fence`:
+every `(b, n)`, `n ≤ 5`, such that `n × b` starts with the fence -/
+def fenceTable : List (Nat × Nat) :=
+  (List.range 256).flatMap fun b =>
+    ((List.range 6).filter fun n => fence.isPrefixOf (List.replicate n (UInt8.ofNat b))).map (b, ·)
+
+/-- the code fence, as behaviour: the real decoder opens a pre block on a line of `n × b`
+(all 256 bytes, `n = 1..5`, probed on every run) exactly where the model's `fence` does -/
+theorem C17_gen_fence : Generated.C17.fenceProbe = some fenceTable := by decide
 
 /-- the token size limit `NewDecoder` passes to `bufio.Scanner.Buffer`, read from the source
 (constant-evaluated; the default 64 KiB when `Buffer` is not called), is the model's: none.
